@@ -73,6 +73,8 @@ type c09World struct {
 	deepSkip   *zap.Logger // AddCaller with a skip beyond the stack: "failed to get caller" on the error output
 	colourLog  *zap.Logger // console encoder with a colouring level encoder
 	colourJSON *zap.Logger
+	consoleNS  *zap.Logger // console logger whose context leaves a namespace open (freshly derived)
+	namedJSON  *zap.Logger // JSON encoder with a name key and no name encoder, named, freshly built
 }
 
 type c09BadSync struct{ c09Discard }
@@ -143,6 +145,9 @@ func c09NewWorld() *c09World {
 	w.deepSkip = zap.New(base, zap.AddCaller(), zap.AddCallerSkip(100000), errOut)
 	cenc := zapcore.EncoderConfig{MessageKey: "m", LevelKey: "l", EncodeLevel: zapcore.CapitalColorLevelEncoder}
 	w.colourLog = zap.New(zapcore.NewCore(zapcore.NewConsoleEncoder(cenc), w.locked, zapcore.DebugLevel))
+	w.consoleNS = w.colourLog.With(zap.Namespace("req"), zap.Int("id", 7))
+	ncfg := zapcore.EncoderConfig{MessageKey: "m", NameKey: "logger", LevelKey: "l", EncodeLevel: zapcore.LowercaseLevelEncoder}
+	w.namedJSON = zap.New(zapcore.NewCore(zapcore.NewJSONEncoder(ncfg), w.locked, zapcore.DebugLevel)).Named("svc").Named("db")
 	cenc.EncodeLevel = zapcore.LowercaseColorLevelEncoder
 	w.colourJSON = zap.New(zapcore.NewCore(zapcore.NewJSONEncoder(cenc), w.locked, zap.LevelEnablerFunc(func(zapcore.Level) bool { return true })))
 	return w
@@ -259,6 +264,9 @@ var c09Concrete = map[string][]func(w *c09World, r *rand.Rand){
 		func(w *c09World, r *rand.Rand) { w.colourLog.Log(zapcore.Level(20+r.Intn(60)), "unknown level, coloured") },
 		func(w *c09World, r *rand.Rand) { w.colourJSON.Log(zapcore.Level(-20-r.Intn(60)), "unknown level, lowercase colour") },
 		func(w *c09World, r *rand.Rand) { w.colourJSON.Warn("known level, lowercase colour") },
+		func(w *c09World, r *rand.Rand) { w.consoleNS.Info("no fields of its own, context ends inside a namespace") },
+		func(w *c09World, r *rand.Rand) { w.namedJSON.Info("named logger, default name encoder") },
+		func(w *c09World, r *rand.Rand) { w.namedJSON.With(zap.Int("c", 1)).Info("child of a named logger") },
 	},
 	"logger.with": {
 		func(w *c09World, r *rand.Rand) { w.shared.With(zap.Int("w", 1), zap.Namespace("ns")).Info("derived") },
